@@ -1,12 +1,14 @@
 (* CorrC20.v — correspondence and property evaluation for C20 (run on harness output). *)
-From Ucfg Require Export Base ParseInt Consts Field Tree PathOps CorrC02.
+From Ucfg Require Export Base ParseInt Consts Field Tree PathOps CorrC02 CorrC07.
 
 Inductive case :=
 | CParseInt (s : string) (signed unsigned : option Z)
 | CPath (input sep : string) (maxIdx : Z) (numKeys escape : bool) (observed : list field)
 | CPathIdx (name : string) (idx : Z) (sep : string) (maxIdx : Z) (numKeys : bool) (observed : list field)
 | CTag (tag : string) (maxIdx : Z) (numKeys : bool) (cfg : value) (observed : option string)
-| CDyn20 (c : CorrC02.case).
+| CDyn20 (c : CorrC02.case)
+| CSeven (c : CorrC07.case).
+    (* histories of explicit-index writes: the C12 machinery with the growth law of C07 *)
     (* names inside references, read under EnableNumKeys / EscapePath: the C02 machinery *)
     (* Unpack of cfg into struct{F string `config:"<tag>"`} under MaxIdx / EnableNumKeys: what F
        holds afterwards (None = Unpack failed).  The tag is read under the options of THIS call *)
@@ -59,6 +61,7 @@ Definition prop_holds (c : case) : bool :=
         end in
     match want with Some s => opt_eqb String.eqb obs (Some s) | None => true end
   | CDyn20 d => CorrC02.prop_holds d
+  | CSeven h => CorrC07.prop_holds h
   end.
 
 Definition model_agrees (c : case) : bool :=
@@ -76,6 +79,7 @@ Definition model_agrees (c : case) : bool :=
     | _ => true
     end
   | CDyn20 d => CorrC02.skipped d || CorrC02.model_agrees d
+  | CSeven h => CorrC07.skipped h || CorrC07.model_agrees h
   end.
 
 (* known-finding signatures (0 = none) *)
